@@ -10,9 +10,9 @@ use serde_json::json;
 use std::sync::Arc;
 use subject::{Cfg, PoolSubject, Prop};
 
-const ALL: &[&str] = &["a", "b", "bb", "c", "d", "e", "q", "f", "g", "i", "h", "j", "k", "m", "r", "n", "o", "p"];
+const ALL: &[&str] = &["a", "b", "bb", "c", "d", "e", "q", "f", "g", "i", "h", "j", "k", "m", "r", "s", "n", "o", "p"];
 /// coins, messages, chains, diamonds, collisions, wrong / missing inputs
-const FAMILY_COINS: &[&str] = &["a", "b", "bb", "c", "d", "e", "q", "f", "m", "r", "n", "o", "p"];
+const FAMILY_COINS: &[&str] = &["a", "b", "bb", "c", "d", "e", "q", "f", "m", "r", "s", "n", "o", "p"];
 /// contracts, blobs and an ordinary parent / child pair
 const FAMILY_CONTRACTS: &[&str] = &["g", "i", "h", "j", "k", "a", "d", "r"];
 
@@ -102,8 +102,10 @@ fn main() {
         Prop::C20 => &["block_with_pool_txs", "preconf_confirmed_by_block", "preconf_rolled_back", "rollback_evicted_dependents", "rollback_freed_resubmission", "late_preconf_ignored"],
         Prop::C21 => &["squeeze_reports_checked", "collision_won", "evicted_for_space", "cascade_removed_dependents", "rollback_evicted_dependents", "expired_with_dependents", "skipped_tx_dependents_removed"],
     };
+    // (a run that found violations has a verdict already; vacuity only guards a green one)
+    let violations: usize = run.reports.iter().map(|r| r.violations.len()).sum();
     for n in needed {
-        if hits.get(*n).copied().unwrap_or(0) == 0 {
+        if violations == 0 && hits.get(*n).copied().unwrap_or(0) == 0 {
             machinery_failure(&format!("vacuous exploration: event `{n}` never occurred"));
         }
     }
@@ -113,7 +115,7 @@ fn main() {
         json!(u.txs.iter().map(|t| json!({"name": t.name, "tip": t.tip, "max_gas": t.gas, "size": t.size, "max_gas_price": t.max_gas_price})).collect::<Vec<_>>()),
     );
     run.note("oracle", json!(cli.property));
-    run.assume("transactions are prepared by the service's own verification pipeline (hook verify_transaction) against the genesis state; 18 fixed transactions");
+    run.assume("transactions are prepared by the service's own verification pipeline (hook verify_transaction) against the genesis state; 19 fixed transactions");
     run.assume("the persistent-storage port is a map/set model of the chain; an imported block is applied to it before the pool is told, as the importer does");
     run.assume("wall-clock stamps never enter observations or the canonical state; all pairs of transactions that can be pooled together have strictly and identically ordered tip/gas and (tip+1)/gas, so the creation-time tie-breaker is never consulted");
     run.assume("the worker's handlers are called one at a time (the worker is single-threaded by construction); queued pending-pool resolutions are an explicit letter");
